@@ -19,7 +19,7 @@ CONFIGS = {
               # column of an EARLIER, already closed block
               ({1, 3, 4, 12}, {2, 8}, 7, 2, True), ({1, 2, 5, 6, 8}, {2, 8}, 6, 2, True)],
     "thorough": [(set(range(1, 16)), {1, 2, 3, 4, 5, 6, 7, 9}, 3, 1), ({1, 2, 4, 5, 6}, {2, 8, 9, 5}, 5, 1),
-                 ({1, 3, 4, 12}, {2, 8, 5}, 8, 1, True), ({1, 2, 4, 5, 6, 8}, {2, 8}, 7, 1, True), ({1, 2, 4, 5, 6, 9}, {1, 2, 3, 4, 5, 6, 7}, 4, 1), ({1, 2, 3, 4, 5, 6, 8}, {2, 8, 5}, 5, 1)],
+                 ({1, 3, 4, 12}, {2, 8, 5}, 6, 1, True), ({1, 3, 4, 12}, {2, 8}, 8, 1, True), ({1, 2, 4, 5, 6, 8}, {2, 8}, 7, 1, True), ({1, 2, 4, 5, 6, 9}, {1, 2, 3, 4, 5, 6, 7}, 4, 1), ({1, 2, 3, 4, 5, 6, 8}, {2, 8, 5}, 5, 1)],
 }
 
 
